@@ -78,3 +78,129 @@ theorem applyEdits_append {cmp : κ → κ → Ordering} (hc : TotalPreorder cmp
       simp [List.append_assoc]
 
 end DoltVerif.SortedDict
+
+namespace DoltVerif.SortedDict
+open DoltVerif.Prolly (TotalPreorder)
+variable {κ ν : Type}
+
+theorem cutAt_fst_gt (cmp : κ → κ → Ordering) (k : κ) : ∀ (l : List (κ × ν)), ∀ x ∈ (cutAt cmp k l).1, cmp k x.1 = .gt
+  | [], x, h => by simp [cutAt] at h
+  | kv :: l, x, h => by
+    simp only [cutAt] at h
+    cases hc : cmp k kv.1 with
+    | lt => rw [hc] at h; simp at h
+    | eq => rw [hc] at h; simp at h
+    | gt =>
+      rw [hc] at h
+      simp only [List.mem_cons] at h
+      rcases h with rfl | h
+      · exact hc
+      · exact cutAt_fst_gt cmp k l x h
+
+/-- an edit is a no-op on a sorted list: deleting an absent key, or putting the pair that is
+already there (same key bytes, same value) -/
+def NoopOn [BEq κ] [BEq ν] (cmp : κ → κ → Ordering) (l : List (κ × ν)) (e : κ × Option ν) : Prop :=
+  match l.find? (fun kv => cmp e.1 kv.1 == .eq), e.2 with
+  | none, none => True
+  | some kv, some v => (kv.1 == e.1 && kv.2 == v) = true
+  | _, _ => False
+
+/-- a single no-op edit leaves a sorted list as it is -/
+theorem noop_single [BEq κ] [BEq ν] [LawfulBEq κ] [LawfulBEq ν] {cmp : κ → κ → Ordering} (hc : TotalPreorder cmp)
+    (e : κ × Option ν) : ∀ (l : List (κ × ν)), Sorted cmp l → NoopOn cmp l e →
+      (cutAt cmp e.1 l).1 ++ emit e.1 e.2 ++ (cutAt cmp e.1 l).2 = l
+  | [], _, h => by
+    unfold NoopOn at h
+    simp only [List.find?_nil] at h
+    cases he : e.2 with
+    | none => simp [cutAt, emit]
+    | some v => rw [he] at h; exact absurd h (by simp)
+  | kv :: l, hs, h => by
+    unfold Sorted at hs
+    rw [List.pairwise_cons] at hs
+    simp only [cutAt]
+    cases hck : cmp e.1 kv.1 with
+    | lt =>
+      -- nothing in the list equals the key: the edit must be a delete
+      have hnone : (kv :: l).find? (fun x => cmp e.1 x.1 == .eq) = none := by
+        rw [List.find?_eq_none]
+        intro x hx
+        rcases List.mem_cons.mp hx with rfl | hx
+        · simp [hck]
+        · have := hc.lt_trans e.1 kv.1 x.1 hck (hs.1 x hx)
+          simp [this]
+      unfold NoopOn at h
+      rw [hnone] at h
+      cases he : e.2 with
+      | none => simp [emit]
+      | some v => rw [he] at h; exact absurd h (by simp)
+    | eq =>
+      have hsome : (kv :: l).find? (fun x => cmp e.1 x.1 == .eq) = some kv := by
+        simp [List.find?_cons, hck]
+      unfold NoopOn at h
+      rw [hsome] at h
+      cases he : e.2 with
+      | none => rw [he] at h; exact absurd h (by simp)
+      | some v =>
+        rw [he] at h
+        simp only [Bool.and_eq_true, beq_iff_eq] at h
+        have : (e.1, v) = kv := by rw [← h.1, ← h.2]
+        simp [emit, this]
+    | gt =>
+      have hfind : (kv :: l).find? (fun x => cmp e.1 x.1 == .eq) = l.find? (fun x => cmp e.1 x.1 == .eq) := by
+        simp [List.find?_cons, hck]
+      have h' : NoopOn cmp l e := by unfold NoopOn at h ⊢; rw [hfind] at h; exact h
+      have ih := noop_single hc e l hs.2 h'
+      simp only [List.cons_append]
+      rw [ih]
+
+theorem cutAt_snd_sublist (cmp : κ → κ → Ordering) (k : κ) : ∀ (l : List (κ × ν)), ((cutAt cmp k l).2).Sublist l
+  | [] => by simp [cutAt]
+  | kv :: l => by
+    simp only [cutAt]
+    cases hc : cmp k kv.1 with
+    | lt => simp
+    | eq => simp
+    | gt => exact (cutAt_snd_sublist cmp k l).cons kv
+
+/-- **a batch of no-op edits leaves a sorted list as it is** -/
+theorem noop_all [BEq κ] [BEq ν] [LawfulBEq κ] [LawfulBEq ν] {cmp : κ → κ → Ordering} (hc : TotalPreorder cmp) :
+    ∀ (es : Edits κ ν) (l : List (κ × ν)), Sorted cmp l → es.Pairwise (fun a b => cmp a.1 b.1 = .lt) →
+      (∀ e ∈ es, NoopOn cmp l e) → applyEdits cmp l es = l
+  | [], l, _, _, _ => rfl
+  | e :: es, l, hs, hes, hno => by
+    rw [List.pairwise_cons] at hes
+    have hsingle := noop_single hc e l hs (hno e (by simp))
+    have hspost : Sorted cmp (cutAt cmp e.1 l).2 := by
+      unfold Sorted at hs ⊢; exact List.Pairwise.sublist (cutAt_snd_sublist cmp e.1 l) hs
+    have hnopost : ∀ e' ∈ es, NoopOn cmp (cutAt cmp e.1 l).2 e' := by
+      intro e' he'
+      have h := hno e' (by simp [he'])
+      have hlt : cmp e.1 e'.1 = .lt := hes.1 e' he'
+      unfold NoopOn at h ⊢
+      have hfind : l.find? (fun kv => cmp e'.1 kv.1 == .eq)
+          = (cutAt cmp e.1 l).2.find? (fun kv => cmp e'.1 kv.1 == .eq) := by
+        conv => lhs; rw [← hsingle]
+        rw [List.find?_append, List.find?_append]
+        have h1 : (cutAt cmp e.1 l).1.find? (fun kv => cmp e'.1 kv.1 == .eq) = none := by
+          rw [List.find?_eq_none]
+          intro x hx
+          have hx1 : cmp x.1 e.1 = .lt := (hc.swap_lt _ _).mpr (cutAt_fst_gt cmp e.1 l x hx)
+          have := hc.gt_of_lt _ _ (hc.lt_trans x.1 e.1 e'.1 hx1 hlt)
+          simp [this]
+        have h2 : (emit e.1 e.2).find? (fun kv => cmp e'.1 kv.1 == .eq) = none := by
+          rw [List.find?_eq_none]
+          intro x hx
+          have hxk : x.1 = e.1 := by
+            cases he2 : e.2 with
+            | none => rw [he2] at hx; simp [emit] at hx
+            | some v => rw [he2] at hx; simp [emit] at hx; rw [hx]
+          have := hc.gt_of_lt _ _ hlt
+          rw [hxk]; simp [this]
+        rw [h1, h2]; simp
+      rw [← hfind]; exact h
+    have ih := noop_all hc es (cutAt cmp e.1 l).2 hspost hes.2 hnopost
+    show (cutAt cmp e.1 l).1 ++ emit e.1 e.2 ++ applyEdits cmp (cutAt cmp e.1 l).2 es = l
+    rw [ih]; exact hsingle
+
+end DoltVerif.SortedDict
